@@ -56,8 +56,10 @@ check("C03", "model_checking",
       "VecScale, signed axis permutations, ForceSolidBounds, CacheSolidBounds, Optimize, SolidMux, RectSet, stacks) are "
       "built with the real constructors; TLC checks finite min <= max bounds, that no contained probe lies outside the "
       "reported box, and that the contained probes are exactly the tree's denotation (wrappers do not cut the shape).",
-      "Trusted: TLC, SolidAlgebra denotation. Box world only at this stage; curved primitives and toolbox solids are "
-      "covered only as far as later stages of the check add them (see DESIGN.md).",
+      "Trusted: TLC, SolidAlgebra denotation; PrimJudge.tla decides membership of integer-data spheres, boxes, polytopes, "
+      "cylinders / capsules / cones with any integer axis, 2-D triangles and bitmaps exactly (stage prims: bounds, leak and "
+      "cut clauses on a quarter lattice incl. negative fractional coordinates; metaball solids under Transform / Scale / "
+      "VecScaleMetaball with negative scales against their own field definition). Toolbox solids: leak clause only.",
       "TLA+ denotational spec evaluated by TLC against real-code answers", "DESIGN.md §5 C03")
 
 check("C06", "model_checking",
@@ -66,8 +68,10 @@ check("C06", "model_checking",
       "turned into meshes; MeshToSDF (SDF, PointSDF, NormalSDF, FaceSDF, mutually consistent) is probed on the "
       "half-integer grid and TLC requires: sign iff inside, squared distance equal to the brute-force minimum over faces, "
       "nearest point one of the minimisers, normal the normal of a nearest face.",
-      "Trusted: TLC, projection of distances to integers (x^2*4 with an exactness flag). Voxel worlds only at this stage; "
-      "curved primitives / 2-D fields as far as later stages add them.",
+      "Trusted: TLC, projection of distances to integers (x^2*4 with an exactness flag). Stage prims (PrimJudge.tla): integer-data "
+      "primitives (sphere, box, cylinder, capsule, cone, torus; 2-D circle, box, capsule, triangle) at lattice and special "
+      "points (centre, axis, apex): sign, point on the surface at |sdf|, unit outward normal, variants agree; exact values "
+      "for spheres and boxes.",
       "TLA+ exact-geometry spec evaluated by TLC against real-code answers", "DESIGN.md §5 C06")
 check("C07", "model_checking",
       "Same voxel worlds as mesh collider, area-density BVH, grouped-triangle collider and randomly nested joined "
@@ -77,8 +81,10 @@ check("C07", "model_checking",
       "against exact hits in [0,1]; ColliderContains against inside/outside; every query (incl. degenerate ones, box and "
       "triangle queries) must equal the literal linear scan over the individual triangles. Directions are scaled by "
       "2^-e (e up to 30) to cover non-unit directions.",
-      "Trusted: TLC, the projection t*4 -> integer with exactness flag. Ball tangency undecided; voxel worlds only at "
-      "this stage.",
+      "Trusted: TLC, the projection t*4 -> integer with exactness flag. Ball tangency undecided. Stage prims "
+      "(PrimJudge.tla): the same primitives as colliders with integer rays (also scaled by 2^-30 and 2^10): counts with / "
+      "without callback, hits on the surface with unit outward normals, first = min, parity in general position, ball "
+      "queries; exact hit counts for spheres (discriminant signs) and boxes (slab method).",
       "TLA+ exact-geometry spec evaluated by TLC against real-code answers", "DESIGN.md §5 C07")
 check("C08", "model_checking",
       "Point trees: every multiset of <= 3-4 points of a small grid (duplicates, split-axis ties) and seeded larger ones, "
@@ -242,6 +248,25 @@ check("C18", "model_checking",
       "handed to TLC as booleans / integer boxes. Stretch-minimising parameterisation and packing quality are not covered.",
       "TLA+ model checking of the chart loop (TLC) + TLC judging of real decompositions, parameterisations and UV lookups",
       "DESIGN.md §5 C18")
+
+check("C17", "model_checking",
+      "KernelGen.tla enumerates exact inputs and KernelJudge.tla (with KernelMath.tla: exact determinants, adjugates, "
+      "characteristic polynomials, polynomial products, de Casteljau in integers scaled by 4^n, arc positions of integer "
+      "polylines, angle arithmetic in units of pi/12) decides the defining equations on what the real kernels returned: "
+      "polynomial root finding on products of integer linear factors and irreducible quadratics (sound, complete, "
+      "multiplicities for simple roots); Det / Inverse / MulColumnInv against the adjugate exactly and SVD / eigenvalues / "
+      "CharPoly reconstruction on every 2x2 integer matrix with entries -2..2 and palettes of 3x3 and 4x4 matrices "
+      "(diagonal in every order, permutations, symmetric, shears), rotations by multiples of pi/2 and 2pi/3 as exact "
+      "signed permutations; least squares, sparse Cholesky and BiCGSTAB on integer systems with integer solutions; GSS, "
+      "LineSearch, RecursiveLineSearch, GridSearch2D/3D and the toolbox3d wrappers with every evaluation logged (the "
+      "result must be at least as good as every sample); CanonicalAngle / AngleDist on multiples of pi/12; Bezier "
+      "Eval / Split / Polynomials against integer de Casteljau for degrees 1-7; SegmentCurve / JoinedCurve at every "
+      "integer arc position of axis-parallel polylines.",
+      "Trusted: TLC; projection of floats to scaled integers with exactness flags and to decimal error buckets. Tolerances "
+      "(1e-9 well-conditioned, 1e-6 / 1e-3 for repeated or zero singular values, simple roots only for completeness) are "
+      "those the conditioning allows - see KernelJudge.tla. General real inputs are not covered. Built by a delegated "
+      "agent from a written brief and reviewed.",
+      "TLC-enumerated exact inputs replayed into the real kernels and judged by TLC in integer arithmetic", "DESIGN.md §5 C17")
 
 _pending = "check not built yet in this session (planned, see DESIGN.md §10)"
 for pid in ["C01","C02","C03","C04","C05","C06","C07","C08","C10","C11","C12","C13","C14","C15","C16","C17","C18","C20"]:
